@@ -65,6 +65,9 @@ fn sres_u(r: std::io::Result<()>) -> R {
 
 fn gen_buf_len() -> usize {
     let c = cx();
+    if c.a(24) == 0 {
+        return 0; // std accepts empty buffers too (one zero-length system call on descriptors)
+    }
     match c.a(8) {
         0 => 8,
         1 => 9,
@@ -303,7 +306,10 @@ impl Scenario for IoMem {
                 viol("result", format!("call {} {} on {} of {} bytes: returned {:?}, std returned {:?}", call, desc, name, slen, vr, sr));
                 break;
             }
-            let failed_exact = exact && matches!(vr, R::E(_));
+            // Only a failed exact *read* leaves the stream state unspecified in std (and the unmodified
+            // adapters differ from std 1.95 there); a failed write_all is compared like any other call.
+            let reading_call = matches!(kind, 0 | 3 | 4) || desc.contains("read_");
+            let failed_exact = exact && reading_call && matches!(vr, R::E(_));
             if failed_exact {
                 short_or_err += 1;
                 // std leaves buffer contents and the amount consumed unspecified after a failed
@@ -566,6 +572,9 @@ impl Scenario for IoFd {
             let mut done = 0usize;
             let mut vi = 0usize;
             let exp_res: R = loop {
+                if exact && blen == 0 {
+                    break R::Unit;
+                }
                 let v = verdicts.get(vi).copied().unwrap_or(IoVerdict::Pass);
                 vi += 1;
                 let len = blen - done;
